@@ -21,7 +21,7 @@ RULE = (
     "(operation, parameters, screen hash); raising = did not return; non-trivial = returned and input has >=2 unobserved plates or >=2 samples"
 )
 ASSUMPTIONS = ["NPlatePerCellLine: 'no sample' is read as no sample that still has unobserved experiments in the output (the observed part passes through, C11)"]
-REQUIRED = {"smoother_objects_that_refused_a_screen_before": {"quick": 20, "thorough": 400}, "combo_filter_combination_free_cases": {"quick": 8, "thorough": 200}, "cli_shape_runs": {"quick": 12, "thorough": 120}, "returned_SampleSegregating": {"quick": 150, "thorough": 3000}, "returned_Pairwise": {"quick": 40, "thorough": 1000}, "returned_MergeMin": {"quick": 60, "thorough": 1500}, "returned_MergeTopBottom": {"quick": 60, "thorough": 1500}, "returned_FixedSize": {"quick": 80, "thorough": 2000}, "returned_OptimalSize": {"quick": 80, "thorough": 2000}, "returned_NPlatePerCellLine": {"quick": 60, "thorough": 1500}, "returned_SparseCover": {"quick": 80, "thorough": 2000}, "returned_combo_filter": {"quick": 80, "thorough": 2000}}
+REQUIRED = {"objects_applied_to_another_screen_before": {"quick": 150, "thorough": 2500}, "smoother_objects_that_refused_a_screen_before": {"quick": 20, "thorough": 400}, "combo_filter_combination_free_cases": {"quick": 8, "thorough": 200}, "cli_shape_runs": {"quick": 12, "thorough": 120}, "returned_SampleSegregating": {"quick": 150, "thorough": 3000}, "returned_Pairwise": {"quick": 40, "thorough": 1000}, "returned_MergeMin": {"quick": 60, "thorough": 1500}, "returned_MergeTopBottom": {"quick": 60, "thorough": 1500}, "returned_FixedSize": {"quick": 80, "thorough": 2000}, "returned_OptimalSize": {"quick": 80, "thorough": 2000}, "returned_NPlatePerCellLine": {"quick": 60, "thorough": 1500}, "returned_SparseCover": {"quick": 80, "thorough": 2000}, "returned_combo_filter": {"quick": 80, "thorough": 2000}}
 N_OPS = {"quick": 4800, "thorough": 64000}
 
 
@@ -306,6 +306,15 @@ def run_shard(rec, tier, seed, shard, nshards):
                         rec.count("smoother_objects_that_refused_a_screen_before")
             except Exception as e:
                 rec.did_not_return("object-with-a-past-setup", e)
+        if rng.random() < 0.35:
+            # a long-lived generator / smoother object in a loop over data sets: it has already been applied to one or
+            # two OTHER screens (other sizes, other optima); what it guarantees for this screen is the same
+            for _ in range(int(rng.integers(1, 3))):
+                try:
+                    fn(Screen(**RC.retro_screen_kwargs(rng)[0]), np.random.default_rng(int(rng.integers(0, 2**31))))
+                    rec.count("objects_applied_to_another_screen_before")
+                except Exception:
+                    rec.count("objects_that_refused_another_screen_before")
         before_fp = RC.screen_fingerprint(kit, screen)
         ok, out = kit.returns(rec, name, fn, screen, g)
         rec.check(RC.screen_fingerprint(kit, screen) == before_fp, "C13/input/mutated", "%s%r mutated its input screen" % (name, params), w)
